@@ -18,9 +18,14 @@ def main():
     ev = f'/verif/evidence/{a.pid}.json'
     if os.path.exists(ev) and not a.only:
         os.remove(ev)
+    spec = importlib.import_module(f'specs.{a.pid}')
+    import threading
+    th = None
+    if getattr(spec, 'REPLAYERS', None):
+        th = threading.Thread(target=H.ensure_replay); th.start()
     msg = H.ensure_mir()
     print(f'[{a.pid}] {msg}')
-    spec = importlib.import_module(f'specs.{a.pid}')
+    if th: th.join()
     rep = H.Report(a.pid, tier, seed)
     rep.assumptions = list(getattr(spec, 'ASSUMPTIONS', []))
     rep.trusted = list(getattr(spec, 'TRUSTED', [])) + ['rustc nightly MIR (-Zunpretty=mir) of the current /repo tree', 'mirsym library models of fixed::I80F48 / core integer ops', 'z3 4.x/5.x']
